@@ -11,13 +11,19 @@ I64 = lambda v: {"kind": "i64", "v": str(v)}
 ST = lambda v: {"kind": "stringer", "v": v}
 PST = lambda v: {"kind": "pstringer", "v": v}
 
+K = lambda kind, v: {"kind": kind, "v": str(v)}
+
 # names whose virtual-node strings repr+itoa(i) coincide ("1"+"10" == "11"+"0"), and equal reprs
 AMBIGUOUS = [S("1"), S("11"), S("12"), S("2"), S("node1"), S("node11"), S("node12"), S("node2"),
-             S("a"), S("a1"), I(1), I(11), I(2), ST("1"), ST("node1"), I64(11), PST("node11"), S("")]
+             S("a"), S("a1"), I(1), I(11), I(2), ST("1"), ST("node1"), I64(11), PST("node11"), S(""),
+             K("nil", ""), K("u8", 1), K("f64", "1"), K("i8", 11), K("u64", 12), K("pint", 2), K("bytes", "node1"),
+             K("err", "a1"), K("i32", 110), K("struct", 1), S("{1 x}"), S("{1 x}1")]
 # names no one of which is another one followed by digits; equal reprs across kinds are included
 CLEAN = [S("alpha"), S("beta"), S("gamma"), S("delta"), S("10.0.0.1:6379."), S("10.0.0.2:6379."),
          S("cache-a"), S("cache-b"), S("x/y"), S("z_"), I(3), I(5), I(7), S("7"), ST("7"), ST("alpha"),
-         PST("beta"), I64(5)]
+         PST("beta"), I64(5), K("bool", "true"), K("bool", "false"), K("f64", "2.5"), K("f32", "0.25"), K("u", 9),
+         K("u16", 9), K("u32", 5), K("u64", "18446744073709551615"), K("i8", -3), K("i16", 300), K("i32", 7),
+         K("bytes", "alpha"), K("err", "gamma"), K("pint", 13), K("ppstr", "delta"), K("struct", 4)]
 
 # the single-key API of kv.Store (harness/cmd/c15/script.go kvOps), by the redis type of the key it is run on
 KV_OPS = {
@@ -47,10 +53,15 @@ def probes(rng, n):
         r = rng.random()
         if r < 0.7:
             ps.append(S("key%d" % rng.randrange(100000)))
-        elif r < 0.9:
+        elif r < 0.85:
             ps.append(I(rng.randrange(100000)))
-        else:
+        elif r < 0.93:
             ps.append(ST("user:%d" % rng.randrange(1000)))
+        else:
+            ps.append(rng.choice([K("f64", "%d.5" % rng.randrange(1000)), K("u32", rng.randrange(10 ** 6)),
+                                  K("bytes", "raw%d" % rng.randrange(1000)), K("bool", "true"), K("nil", ""),
+                                  K("err", "e%d" % rng.randrange(100)),
+                                  K("i64", -rng.randrange(10 ** 12)), K("struct", rng.randrange(50))]))
     return ps
 
 
@@ -145,9 +156,16 @@ class C15(Property):
             # makes prop_ok evaluate the order clauses although the universe has collisions.
             {"hash": "murmur", "mod": 0, "r": 0, "nodes": [S("node1"), S("node11")], "strict": True,
              "ops": [["add", 0], ["add", 1], ["remove", 0], ["remove", 1], ["add", 1], ["add", 0]], "probes": P},
-            # the same finding with a 7-slot hash: a third node joining the shared slots moves keys between the
-            # two others (bucket index = innerhash % 2 becomes % 3)
-            {"hash": "small", "mod": 7, "r": 0, "nodes": [S("alpha"), S("beta"), S("gamma")], "strict": True,
+            # the same finding with a THREE-way coincidence under real murmur3 (h.replicas = 150): "a"+"12x" ==
+            # "a1"+"2x" == "a12"+"x" for x = 0..9.  key85 lands in such a slot: served by "a" while the bucket is
+            # [a, a1] (inner hash % 2 = 0), by "a1" once "a12" joined (% 3 = 1) — adding a node moved a key
+            # between two OTHER nodes.
+            {"hash": "murmur", "mod": 0, "r": 150, "nodes": [S("a"), S("a1"), S("a12")], "strict": True,
+             "ops": [["add", 0], ["add", 1], ["add", 2]],
+             "probes": [S("key85"), S("key115"), S("key191"), S("key180")] + P},
+            # a 7-slot hash (everything collides, by hash VALUE): not an instance of the known finding, hence not
+            # strict — only the clauses that hold for every hash are judged, and the model must agree
+            {"hash": "small", "mod": 7, "r": 0, "nodes": [S("alpha"), S("beta"), S("gamma")],
              "ops": [["add", 0], ["add", 1], ["add", 2], ["remove", 2], ["remove", 0], ["add", 0]], "probes": P},
             # equal reprs replace each other; zero replicas; > max
             {"hash": "murmur", "mod": 0, "r": 120, "nodes": [I(7), S("7"), ST("7"), S("alpha")],
@@ -460,15 +478,83 @@ class C15(Property):
                 return False
         return len(obs["gets"]) == len(case["ops"]) + 1
 
+    def _eff(self, o, R):
+        r = R if o[0] == "add" else o[2] if o[0] == "addr" else int(R * o[2] / 100)
+        return max(0, min(r, R))
+
+    def _order_fail_sites(self, case, obs):
+        """Mirror of the order clauses of Check.hist_ok on the observations: [(step, probe, earlier step or None)]
+        where `moved_ok` (a key moved between two nodes neither of which is the operation's) or `seen_ok` (same
+        node map as at an earlier step, different answer) fails."""
+        R = obs["r"]
+        live = {}    # repr -> (effective replicas, value index)
+        canon = lambda: tuple(sorted((rp, r, v) for rp, (r, v) in live.items() if r > 0))
+        val = lambda m, rp: m[rp][1] if rp in m and m[rp][0] > 0 else None
+        seen = [(canon(), 0)]
+        sites = []
+        for t, o in enumerate(case["ops"], 1):
+            rp = obs["reprs"][o[1]]
+            before = dict(live)
+            live.pop(rp, None)
+            if o[0] != "remove":
+                live[rp] = (self._eff(o, R), o[1])
+            prev, cur = obs["gets"][t - 1], obs["gets"][t]
+            for p, (b, a) in enumerate(zip(prev, cur)):
+                if not (a == b or val(before, rp) == b or val(live, rp) == a):
+                    sites.append((t, p, None))
+            cm = canon()
+            for m0, t0 in seen:
+                if m0 == cm:
+                    sites += [(t, p, t0) for p, (x, y) in enumerate(zip(obs["gets"][t0], cur)) if x != y]
+            seen.append((cm, t))
+        return sites
+
+    def _string_shared_slot(self, case, obs, t, p):
+        """After step t: is the successor slot of probe p owned by two or more different nodes whose
+        virtual-node STRINGS (repr + itoa(index)) coincide?  (Decided on the strings, not on hash values.)"""
+        import bisect
+        R = obs["r"]
+        live = {}
+        for o in case["ops"][:t]:
+            rp = obs["reprs"][o[1]]
+            live.pop(rp, None)
+            if o[0] != "remove":
+                live[rp] = self._eff(o, R)
+        slots = {}   # hash -> {(repr, string)}
+        for rp, r in live.items():
+            k = obs["reprs"].index(rp)
+            for i in range(r):
+                slots.setdefault(int(obs["vh"][k][i]), set()).add((rp, rp + str(i)))
+        if not slots:
+            return False
+        hs = sorted(slots)
+        i = bisect.bisect_left(hs, int(obs["ph"][p][0]))
+        own = slots[hs[i] if i < len(hs) else hs[0]]
+        return len(set(rp for rp, _ in own)) >= 2 and len(set(st for _, st in own)) == 1
+
     def known(self, case, obs):
-        """'collision-bucket-insertion-order' iff the universe is NOT collision-free and every answer is still
-        an owner of the successor slot (so membership, none-iff-empty, no-panic and removed-never-returned all
-        hold): the only way prop_ok can then fail is the choice inside a slot shared by several nodes, i.e. the
-        order clauses (same node map => same answers; keys move only to/from the operation's node)."""
-        if case.get("kind") or self._cf(obs):
+        """'collision-bucket-insertion-order' — only for a history that really contains what the entry
+        describes.  All of:
+        * a ring history marked strict (generated histories on colliding universes are judged by the clauses that
+          hold for every hash only, so they can never be excused), under the default hash;
+        * every answer is still an owner of the successor slot, none iff no live virtual node, no panic
+          (`_core_ok`): membership, removed-never-returned, none-iff-empty hold;
+        * the order clauses fail somewhere, and EVERY place where they fail is a probe whose successor slot is,
+          at that moment (for a move: before or after the operation), shared by different nodes whose
+          virtual-node strings repr+itoa(i) are equal.
+        An order dependence anywhere else — a slot with one owner, or a slot shared only by hash value — is a
+        VIOLATION."""
+        if case.get("kind") or not case.get("strict") or case.get("hash") != "murmur" or self._cf(obs):
             return None
         if not self._core_ok(case, obs):
             return None
+        sites = self._order_fail_sites(case, obs)
+        if not sites:
+            return None
+        for t, p, t0 in sites:
+            if not (self._string_shared_slot(case, obs, t, p) or
+                    (t0 is None and self._string_shared_slot(case, obs, t - 1, p))):
+                return None
         return "collision-bucket-insertion-order"
 
     def _f18_shape(self, case, obs):
